@@ -83,6 +83,8 @@ def o_async(prog, lines):
         join_results = {}               # body -> list of results
         spawned = set()                 # future bodies actually spawned
         wakes, pends = {}, {}
+        flag = {}                       # wslot -> the one-shot flag as the log order determines it
+        last_pc_of, tid_body = {}, {}   # body -> pc of its last logged op; task id -> body
         stopped_by_sched = False
         for l in e["lines"]:
             if l.startswith("D "):
@@ -111,12 +113,17 @@ def o_async(prog, lines):
             if op is None:
                 continue                 # `dtor`, `init`, … lines
             res = t[4]
+            last_pc_of[body] = int(t[3])
+            tid_body[t[1]] = body
+            if op[0] == "pend_then" and res == "ok" and len(op) > 1:
+                flag[op[1]] = False
             if op[0] == "fspawn" and res == "ok":
                 spawned.add(op[1])
             elif op[0] == "fabort" and res == "ok":
                 aborted.add(op[1])
             elif op[0] == "wake" and res == "ok":
                 wakes[op[1]] = wakes.get(op[1], 0) + 1
+                flag[op[1]] = True
             elif op[0] == "fis_finished" and res == "true":
                 if op[1] not in ended and op[1] not in dropped:
                     bad.append((f"fis_finished {op[1]} returned true before body {op[1]} ended", "C17:finished-flag"))
@@ -143,11 +150,41 @@ def o_async(prog, lines):
             elif lf and lf[0] == "pend" and res == "ok":
                 w = lf[1]
                 pends[w] = pends.get(w, 0) + 1
+                flag[w] = False
                 if pends[w] > wakes.get(w, 0):
                     bad.append((f"`pend {w}` completed {pends[w]} times after only {wakes.get(w, 0)} `wake {w}`", "C17:pend-wake"))
         end = e["end"] or ""
         if end.startswith("E fail deadlock! blocked tasks: ["):
             items = re.findall(r"\(task [^()]*\((\d+)\)((?:, [a-z ]+)*)\)", end)
+            # no lost wake-up: a task still suspended at `pend w` / `pend_then w …` although the flag of w was set after its
+            # last completed operation and it is the only body that ever waits on w (so the stored waker was its own)
+            def waits_on(o):
+                o = list(o)
+                while o and o[0] == "block_on":
+                    o = o[1:]
+                # (`pend_then w <op>` may be stuck inside <op> itself — a parked or receiving task — which the log cannot
+                # tell from being suspended after `Pending`: only the plain `pend` is judged)
+                return o[1] if len(o) > 1 and o[0] == "pend" else ("?" if len(o) > 1 and o[0] == "pend_then" else None)
+            users = {}
+            for kb, ops in bodies.items():
+                for o in ops:
+                    o = list(o)
+                    while o and o[0] == "block_on":
+                        o = o[1:]
+                    if len(o) > 1 and o[0] in ("pend", "pend_then"):
+                        users.setdefault(o[1], set()).add(str(kb))      # everybody whose waker the slot may hold
+            for tid, _flags in items:
+                kb = tid_body.get(tid)
+                if kb is None or any(o[0] == "if" for o in bodies.get(int(kb), bodies.get(kb, []))):
+                    continue
+                ops = bodies.get(int(kb), bodies.get(kb, []))
+                nxt = last_pc_of.get(kb, -1) + 1
+                if nxt < len(ops):
+                    w = waits_on(ops[nxt])
+                    if w is not None and w != "?" and flag.get(w) and users.get(w) == {str(kb)} and not any(
+                            o[0] == "pend_then" and o[1:2] == [w] for o in ops):
+                        bad.append((f"deadlock: task {tid} is still suspended at `{' '.join(ops[nxt])}` although `wake {w}` completed after its last "
+                                    f"operation and nobody else waits on {w}: the wake-up was lost", "C17:lost-wake"))
             if items and all(", detached" in flags for _, flags in items):
                 bad.append(("deadlock reported although only detached tasks remain: " + end[7:80], "C17:detached-deadlock"))
         elif end == "E end" and not stopped_by_sched and P["steps"][0] != "cont":
